@@ -20,7 +20,7 @@ RULE = (
 ASSUMPTIONS = ["invalid_disparity values are float32-representable (the map is float32)"]
 GATES = {
     "two_blocks_both_axes_with_tie_and_allnan_in_later_block": 1,
-    "nan_invalid_disparity": 1,
+    "nan_invalid_disparity": 1, "more_than_256_disparity_samples": 1,
     "max_type_with_ties": 1,
     "all_27_patterns_D3": 1,
     "pipeline_disparity_steps": 5,
@@ -69,6 +69,8 @@ def cases(spec, ctx):
         if spec["part"] == 0:
             yield {"work": "synth", "shape": [201, 101], "j": 99}
             yield {"work": "synth", "shape": [101, 250], "j": 98}
+            for k in range(6):
+                yield {"work": "synth", "shape": [[5, 7], [3, 20], [9, 9]][k % 3], "j": 100 + 2 * k}
     elif spec["work"] == "patterns":
         for tm in ("min", "max"):
             for inv in (-9999, "nan"):
@@ -157,10 +159,12 @@ def run_case(case, ctx):
         rows, cols = case["shape"]
         rng = ctx.rng("synth", rows, cols, case["j"])
         nd = int(rng.choice([1, 2, 3, 7]))
+        if rows * cols <= 400 and case["j"] % 2 == 0:
+            nd = int(rng.choice([257, 300, 321]))  # more disparity samples than an 8-bit index can hold
         tm = ["min", "max"][int(rng.integers(0, 2))]
         subpix = int(rng.choice([1, 2, 4]))
         nan_kind = ["mixed", "interval", "holes", "allnan", "none"][int(rng.integers(0, 5))]
-        floaty = rng.random() < 0.25
+        floaty = rng.random() < 0.25 or nd > 256
         d0 = int(rng.integers(-5, 3))
         disps = d0 + np.arange(nd) / float(subpix) if subpix > 1 else d0 + np.arange(nd)
         costs, lo, hi = gen.synth_costs(rng, rows, cols, nd, nan_kind=nan_kind, floaty=floaty)
@@ -195,6 +199,7 @@ def run_case(case, ctx):
         ctx.case([desc[k] for k in desc], nontrivial=bool(ties and np.isnan(costs).any()))
         if rows > 100 and cols > 100:
             ctx.gate("two_blocks_both_axes_with_tie_and_allnan_in_later_block")
+        ctx.gate("more_than_256_disparity_samples", int(nd > 256 and bool((exp_idx >= 256).any())))
         ctx.gate("nan_invalid_disparity", int(inv == "nan" and bool((exp_idx < 0).any())))
         ctx.gate("max_type_with_ties", int(tm == "max" and ties))
         if ctx.evaluations <= 2:
